@@ -50,6 +50,10 @@ func NewHTTP2HTTPPlugin(_ PluginContext, options v1.ClientPluginOptions) (Plugin
 		l:    listener,
 	}
 
+	// the default transport, but without adding "Accept-Encoding: gzip" to requests and decoding responses
+	tr := http.DefaultTransport.(*http.Transport).Clone()
+	tr.DisableCompression = true
+
 	rp := &httputil.ReverseProxy{
 		Rewrite: func(r *httputil.ProxyRequest) {
 			r.Out.Header["X-Forwarded-For"] = r.In.Header["X-Forwarded-For"]
@@ -65,6 +69,7 @@ func NewHTTP2HTTPPlugin(_ PluginContext, options v1.ClientPluginOptions) (Plugin
 				req.Header.Set(k, v)
 			}
 		},
+		Transport:  tr,
 		BufferPool: pool.NewBuffer(32 * 1024),
 		ErrorLog:   stdlog.New(log.NewWriteLogger(log.WarnLevel, 2), "", 0),
 	}
